@@ -438,15 +438,29 @@ structure Entry where
   target : Loc
   deriving DecidableEq, Repr, Inhabited
 
-/-- `append_calibration_expansion_output_inner` (755-793).  With a source map the instructions are added
-one at a time and the body length is read before and after (the per-instruction `remove_target_index` calls
-only touch the nested detail); without, `add_instructions`.  An entry is pushed unless the range is empty. -/
+/-- The `for` loop of the WITH-source-map branch of `append_calibration_expansion_output_inner` (764-778):
+each instruction is added on its own; the body length is read before (`start_length`) and after (`end_length`)
+the call; when the two are equal the instruction did not land in the body and its target index RELATIVE to
+`previous` (the body length when the expansion started) is removed from the expansion's detail
+(`remove_target_index`, property C19's subject — the model records the removed indices, in order). -/
+def Prog.appendLoop (previous : Nat) : Prog → List Instruction → List Nat → Prog × List Nat
+  | p, [], removed => (p, removed)
+  | p, i :: rest, removed =>
+    let startLength := p.instructions.length
+    let p' := p.add i
+    let endLength := p'.instructions.length
+    if startLength == endLength then appendLoop previous p' rest (removed ++ [startLength - previous])
+    else appendLoop previous p' rest removed
+
+/-- `append_calibration_expansion_output_inner` (755-793), both branches.  With a source map: the loop above,
+then the range `previous .. body length`, and an entry is pushed unless the range is empty.  Without:
+`add_instructions` (791). -/
 def Prog.appendExpansion (p : Prog) (out : List Instruction) (source : Nat) (sm : Option (List Entry)) :
     Prog × Option (List Entry) :=
   match sm with
   | some entries =>
     let previous := p.instructions.length
-    let p' := out.foldl (fun q i => q.add i) p
+    let p' := (Prog.appendLoop previous p out []).1
     let stop := p'.instructions.length
     (p', some (if previous < stop then entries ++ [⟨source, .rewritten previous stop⟩] else entries))
   | none => (p.addMany out, none)
